@@ -1,14 +1,14 @@
 """C04 - values with units equal the dimensionless values times R (and T) in that unit."""
 import ast
 import re
-from fractions import Fraction as Fr
 
-from ..fold import fold_value, fold_num
-from ..nf import Rat, C
+from ..fold import fold_value
+from ..nf import Rat, C, Poly
 from ..source import Unsupported, AnchorError, params
-from ..xlate import Interp, Obj, ListV, DictV, Raised, SumV, Elem, Frame, FuncRef, RankOrder, _RaisedExc
-from .common import same, show, sub, opaque_obj, attached_models, sel_opaque, coeff_vector
-from .rxnfix import reaction, set_public, make_reaction, species as rxn_species
+from ..xlate import (Interp, ListV, DictV, Raised, Frame, FuncRef, RankOrder, _RaisedExc,
+                     canonical_extremum, SURELY_POSITIVE)
+from .common import same, show, opaque_obj, attached_models, sel_opaque, coeff_vector
+from .rxnfix import reaction, make_reaction, species as rxn_species
 from .c01 import mode_instances, MODE_ATTRS, QUANT
 
 ENERGY = ('U', 'H', 'F', 'G', 'E')      # value = twin * R * T, unit string extended by /K
@@ -173,6 +173,45 @@ def getv(I, obj, mname, avail):
         return (e.raised,)
 
 
+def binding_gap(I, obj, avail):
+    """name of a function made in a class body of the object's class (a closure from a factory, a lambda) that ends in a
+    NameError when it is called the way the analysed code calls it (``self.get_x(...)``) but not when it is handed the
+    instance explicitly: the interpreter then does not bind the instance to such functions, and a NameError seen inside
+    the package is the interpreter's, not the program's.  None when there is no such function."""
+    fr = Frame(I, obj.ci.module, {}, None, None)
+
+    def call(f, args, kw):
+        n_w = len(I.warnings)
+        try:
+            return fr.apply(f, args, dict(kw))
+        except _RaisedExc as e:
+            return e.raised
+        except Unsupported:
+            return None
+        finally:
+            del I.warnings[n_w:]
+    for k in obj.ci.mro:
+        for name, node in k.class_attrs.items():
+            if not isinstance(node, (ast.Call, ast.Lambda)):
+                continue
+            try:
+                v = fr.obj_attr(obj, name)
+            except (Unsupported, _RaisedExc):
+                continue
+            if not (isinstance(v, FuncRef) and (v.closure is not None or isinstance(v.fn, ast.Lambda))):
+                continue
+            names, _, _, kwarg = params(v.fn)
+            kw = dict(avail, units='J/mol/K') if kwarg else {x: y for x, y in dict(avail, units='J/mol/K').items()
+                                                             if x in names}
+            via_instance = call(v, [], kw)
+            plain = FuncRef(v.module, v.fn, None, v.owner, v.closure, v.defaults, v.frame_self)
+            direct = call(plain, [obj], kw)
+            if isinstance(via_instance, Raised) and via_instance.exc in ('NameError', 'UnboundLocalError') and \
+                    not (isinstance(direct, Raised) and direct.exc == via_instance.exc):
+                return '%s.%s' % (k.qual, name)
+    return None
+
+
 def bool_options(fn):
     """(name, default) of the parameters of a function whose default is the literal True/False"""
     a = fn.args
@@ -216,6 +255,44 @@ def sel_label(sel):
     return '' if sel is None else '[S_elements]' if sel else '[S_elements=False]'
 
 
+def absorb(I, v):
+    """the same value with every factor that is certainly positive (temperature, physical constants, unit factors)
+    written *inside* the maxima / minima it multiplies and the extremum brought to its canonical form again:
+    max(0, a, b) * R * T, max(0, a R T, b R T) and max(0, a R, b R) * T all come out as one expression, also where the
+    candidates share no common factor (an intercept in energy units next to a slope times a dimensionless enthalpy)"""
+    if isinstance(v, ListV):
+        out = ListV([absorb(I, x) for x in v.items])
+        out.is_array = getattr(v, 'is_array', False)
+        return out
+    if not isinstance(v, Rat):
+        return v
+    ext = sorted(a for a in v.atoms() if a in I.extrema)
+    if not ext:
+        return v
+    out, rem = C(0), v
+    for at in ext:
+        sp = rem.split_linear(at)
+        if sp is None:
+            return v
+        co, rem = sp
+        if co.iszero():
+            continue
+        if not co.is_monomial():
+            out = out + co * Rat.atom(at)
+            continue
+        (k, c), = co.n.t.items()
+        pos, other = C(abs(c)), C(1 if c > 0 else -1)
+        for a, e in k:
+            m = Rat(Poly.atom(a, e))
+            if a in SURELY_POSITIVE or a.startswith('U<') or a in I.positive_syms or re.fullmatch(r'[TP]\d+', a):
+                pos = pos * m
+            else:
+                other = other * m
+        which = 'max' if at.startswith('MAX{') else 'min'
+        out = out + other * canonical_extremum(I, which, [x * pos for x in I.extrema[at]])
+    return out + rem
+
+
 def run_pair(run, I, obj, label, wname, tname, q, owner, fn, avail, units_list, molweight, counter, warns=False,
              undefined_too=False):
     """one finding per (class, wrapper): the unit strings and option variants that fail are listed in the text.
@@ -238,6 +315,13 @@ def run_pair(run, I, obj, label, wname, tname, q, owner, fn, avail, units_list, 
             # the dimensionless form does not take the unit: evaluated once (after the first dimensional call)
             twin = (getv(I, obj, tname, avail)[0], len(I.warnings) - n1)
         t, n2 = twin[0], n1 + twin[1]
+        for v_ in (w, t):
+            if isinstance(v_, Raised) and v_.exc in ('NameError', 'UnboundLocalError'):
+                gap = binding_gap(I, obj, avail)
+                if gap:
+                    raise Unsupported('%s is a function made in the class body: called through the instance, the '
+                                      'interpreter does not bind the instance to its first parameter (the %s met in '
+                                      '%s is not the program\'s)' % (gap, v_.exc, construct))
         rf = rfactor(I, u, molweight)
         counter[0] += 1
         if isinstance(t, Raised):
@@ -263,7 +347,8 @@ def run_pair(run, I, obj, label, wname, tname, q, owner, fn, avail, units_list, 
         want = I.binop('*', t, rf)
         if q in ENERGY:
             want = I.binop('*', want, T)
-        run.check(same(w, want), 'TWIN.dim', construct, 'twin',
+        # compared in a form that does not depend on where a positive factor stands relative to a maximum
+        run.check(same(w, want) or same(absorb(I, w), absorb(I, want)), 'TWIN.dim', construct, 'twin',
                   '%s(units=%r)%s is not %s * R(%s)%s under the same conditions and options: got %s, expected %s'
                   % (wname, uarg, variant, tname, u, ' * T' if q in ENERGY else '', show(w, 200), show(want, 200)),
                   owner.module, fn,
@@ -427,10 +512,16 @@ def uncovered(repo, covered, ran):
     for ci in sorted(repo.all_classes(), key=lambda k: k.qual):
         own = []
         for name in getter_names(ci):
-            k = next(k_ for k_ in ci.mro if name in k_.methods or name in k_.class_attrs or name in k_.rebound)
-            fn = k.methods.get(name)
-            if fn is None or 'units' in params(fn)[0]:
+            try:
+                got = repo.find_method(ci, name, missing_ok=True)
+            except Unsupported:
+                got = None
+            if got is None:
+                # not a def: bound to a value in a class body, or replaced after the class statement
+                k = next(k_ for k_ in ci.mro if name in k_.class_attrs or name in k_.rebound or name in k_.methods)
                 own.append((k, name))
+            elif 'units' in params(got[1])[0]:
+                own.append(got[0:1] + (name,))
         if not own or ci.qual in covered:
             continue
         subs = [k for k in repo.subclasses(ci, strict=True) if k.qual in covered]
@@ -545,10 +636,10 @@ def check(run, repo):
     # a species-like object that inherits all seven wrappers of the base class and does carry a composition: a BEP
     # relation standing for a transition state, built by its constructor - the class of pmutt.reaction and the one
     # OpenMKM input is written from. (Its activation form is a reaction form, molar only, section (e).)
-    rx = opaque_obj(I, 'rxn', {k: ('T', 'units', 'rev', 'state', 'P') for k in
-                               ('get_delta_E', 'get_delta_H', 'get_H_state', 'get_E_state', 'get_UoRT_state',
-                                'get_HoRT_state', 'get_SoR_state')})
-    rx.isa.add('Reaction')
+    # the reaction the relation is asked about is a Reaction built by its constructor (whatever the relation asks of
+    # it is answered by the package's own code; its species are the uninterpreted ones)
+    rx, rs_, ps_, ts_ = reaction(I, repo, 'pmutt.reaction.Reaction', name='rxn')
+    pressure_default(*(rs_ + ps_ + ts_))
     for bq, btag in (('pmutt.reaction.bep.BEP', 'BEP'), ('pmutt.omkm.reaction.BEP', 'omkm.BEP')):
         for el, mw, tag in ((comp(), molw, 'elements'), (None, None, 'no elements')):
             bep = I.construct(repo.cls(bq), [],
@@ -940,8 +1031,8 @@ def check(run, repo):
     # ---- (e) BEP --------------------------------------------------------------------
     I = Interp(repo)
     D = I.D
-    rx = opaque_obj(I, 'rxn', {k: ('T', 'units', 'rev', 'state', 'P') for k in
-                               ('get_delta_E', 'get_delta_H', 'get_H_state', 'get_E_state')})
+    rx, rs_, ps_, ts_ = reaction(I, repo, 'pmutt.reaction.Reaction', name='rxn')
+    pressure_default(*(rs_ + ps_ + ts_))
     for bq, btag in (('pmutt.reaction.bep.BEP', 'BEP'), ('pmutt.omkm.reaction.BEP', 'omkm.BEP')):
         for desc in ('delta_H', 'rev_delta_E', 'products_H'):
             if btag != 'BEP' and desc != 'delta_H':
@@ -1152,4 +1243,9 @@ EQUIV = [
                 "        R_adj = _get_R_adj(units=units, elements=self.elements)\n"
                 "        return _force_pass_arguments(self.get_CvoR, **kwargs) * R_adj")]},
     {'name': 'Reaction.get_S_state made by a factory, keywords handed on', 'edits': _FACTORY_EDITS(', **kwargs')},
+    {'name': 'ChemkinReaction.get_H_act clamps the enthalpies themselves (max(0, a R T, b R T))',
+     'edits': [(R_, "        return self.get_HoRT_act(rev=rev, T=T,\n                                 **kwargs)*c.R('{}/K'.format(units))*T",
+                "        act = self.transition_state is not None\n        R = c.R('{}/K'.format(units))\n"
+                "        return np.max([0., super().get_delta_HoRT(rev=rev, act=act, T=T, **kwargs)*R*T,\n"
+                "                       super().get_delta_HoRT(rev=rev, act=False, T=T, **kwargs)*R*T])")]},
 ]
